@@ -139,8 +139,10 @@ def transaction(rng):
 def prehistory(rng):
     """clear text before STARTTLS, ending in a state where STARTTLS may or may not be allowed"""
     r = rng.random()
-    if r < 0.45:
+    if r < 0.41:
         return [EHLO]
+    if r < 0.45:                       # ESMTP greeting, then a refused one (blank in the argument): the session is plain SMTP again, STARTTLS must be refused
+        return [EHLO, rng.choice([b'HELO client example\r\n', b'HELO \r\n', b'EHLO a b\r\n'])]
     if r < 0.55:
         return [rng.choice([b'HELO c.example.net\r\n', b'NOOP\r\n', b'RSET\r\n'])]
     if r < 0.70:                       # a transaction begun in clear text
